@@ -57,6 +57,10 @@ class HeapMixin:
         if obj is None:
             raise mk_exc(AttributeError, f"'NoneType' object has no attribute '{attr}'", where=fr.where())
         if isinstance(obj, SObj):
+            cc0 = self.class_contract(obj)
+            if cc0 is not None and attr in cc0.callbacks:
+                self.callback_present(obj, cc0.callbacks[attr], fr)
+                return BoundMethod(obj, attr)
             if attr in obj.fields:
                 v = obj.fields[attr]
                 if v is UNSET:
@@ -109,6 +113,18 @@ class HeapMixin:
         if cc is not None and (attr in cc.callbacks or any(attr == m.split(".")[-1] for m in self.methods_with_contract(qn))):
             return BoundMethod(obj, attr)
         raise mk_exc(AttributeError, f"'{getattr(cls, '__name__', cls)}' object has no attribute '{attr}'", where=fr.where())
+
+    def callback_present(self, obj, cb, fr):
+        if cb.present is None:
+            return
+        import ast as _ast
+
+        from .contracts import Clause
+
+        cl = Clause(f"{cb.name}.present", cb.present, (), _ast.parse(cb.present, mode="eval").body)
+        v = self.spec_eval(cl, {"self": obj}, None)
+        if not self.ctx.branch(self.as_z3_bool(v), f"has({cb.name})@{fr.line}"):
+            raise mk_exc(AttributeError, f"object has no attribute '{cb.name}'", where=fr.where())
 
     def methods_with_contract(self, qn):
         pre = qn + "."
@@ -232,6 +248,9 @@ class HeapMixin:
 
     def seq_elem(self, seq: SymSeq, idx):
         el = seq.e[idx]
+        for (sq, pred) in self.ctx.seq_facts:
+            if z3.eq(sq, seq.e):
+                self.ctx.assume(pred(el), "element fact")
         if seq.elem == "pair":
             return (mk_str(Pair.fst(el), "bytes"), mk_str(Pair.snd(el), "bytes"))
         if seq.elem == "int":
@@ -469,6 +488,7 @@ class HeapMixin:
     # ============================================================== symbolic maps
     def map_lookup(self, m: SymMap, key):
         k = z3_of_int(key)
+        self.ctx.add_key(k)
         for (kk, vv) in m.cache:
             if z3.eq(z3.simplify(kk), z3.simplify(k)):
                 return vv
@@ -487,12 +507,14 @@ class HeapMixin:
 
     def map_get(self, m: SymMap, key, fr):
         k = z3_of_int(key)
+        self.ctx.add_key(k)
         if not self.ctx.branch(z3.Select(m.has, k), f"in({m.name})@{fr.line}"):
             raise mk_exc(KeyError, where=fr.where())
         return self.map_lookup(m, key)
 
     def map_set(self, m: SymMap, key, v, fr):
         k = z3_of_int(key)
+        self.ctx.add_key(k)
         was = z3.Select(m.has, k)
         if m.size is not None:
             m.size = z3.simplify(m.size + z3.If(was, 0, 1))
@@ -514,6 +536,7 @@ class HeapMixin:
 
     def map_del(self, m: SymMap, key, fr):
         k = z3_of_int(key)
+        self.ctx.add_key(k)
         if not self.ctx.branch(z3.Select(m.has, k), f"in({m.name})@{fr.line}"):
             raise mk_exc(KeyError, where=fr.where())
         if m.size is not None:
